@@ -181,7 +181,7 @@ func C14(p *ir.Program, r *report.R) {
 		okPhi, okCond := false, false
 		for _, b := range fn.Blocks {
 			for _, in := range b.Instrs {
-				if ph, ok := in.(*ssa.Phi); ok && ph.Comment == "index" {
+				if ph, ok := in.(*ssa.Phi); ok && ir.LocalName(ph.Parent(), ph.Comment) == "index" {
 					var es []string
 					for _, e := range ph.Edges {
 						es = append(es, ir.Render(e))
